@@ -15,7 +15,14 @@
 (* action = gas fees arriving at the governance address), candidate fee 0.                          *)
 (* Premise of C11 (DESIGN.md): the governance address holds the genesis peers' InitPos.             *)
 (*                                                                                                *)
-(* Not modelled (growth plan): updateConfig, updateGlobalParam, the other GlobalParam2 fields,      *)
+(* The global parameters the fee split reads are STATE of the model: GlobalParam.A / B /            *)
+(* CandidateNum (admin action SetParam = updateGlobalParam) and GlobalParam2.DappFee /              *)
+(* CandidateFeeSplitNum (admin action SetParam2 = updateGlobalParam2; no record stored = the        *)
+(* defaults of getGlobalParam2: DappFee 0, CandidateFeeSplitNum = the CURRENT CandidateNum).         *)
+(* So a settlement is explored for peer pools smaller than, equal to and larger than                *)
+(* CandidateFeeSplitNum, for CandidateFeeSplitNum = K, and for parameters changed between epochs.    *)
+(*                                                                                                *)
+(* Not modelled (growth plan): updateConfig, the remaining GlobalParam fields (constants here),      *)
 (* setPromisePos, withdrawOng,                                                                     *)
 (* the transferFrom variants, several peers per call, registration by a non-designated address.     *)
 EXTENDS Integers, Sequences, FiniteSets, TLC
@@ -28,7 +35,12 @@ CONSTANTS
     K,                          \* config.K
     PosLimit, Penalty, A, B, MinInitStake, MinAuth, DappFee, SplitNum,   \* GlobalParam / GlobalParam2 (DappFee: value after set-up)
     HasDapp,                    \* gas address set during set-up
-    GasVals, DappVals,          \* argument domains of the two admin actions setGasAddress / updateGlobalParam2
+    CandNum,                    \* GlobalParam.CandidateNum after set-up
+    P2Stored,                   \* a GlobalParam2 record was stored during set-up (with MinAuth, SplitNum, DappFee)
+    GasVals,                    \* argument domain of setGasAddress
+    Param2Vals,                 \* argument domain of updateGlobalParam2: pairs <<DappFee, CandidateFeeSplitNum>>
+    ParamVals,                  \* argument domain of updateGlobalParam: triples <<A, B, CandidateNum>>
+    Dev,                        \* named deviations of the code from the specification (sensitivity runs only; {} = as coded)
     GenesisPos,                 \* [GenPeers -> Nat]
     GenesisMax,                 \* MaxAuthorize set for the genesis peers during set-up
     Fund,                       \* [Addrs -> Nat]: ONT of every account after set-up
@@ -56,13 +68,17 @@ VARIABLES
     promise,   \* [Peers -> Int]   PromisePos (-1: no record)
     black,     \* blacklist
     dappFee,   \* GlobalParam2.DappFee (updateGlobalParam2)
+    splitNum,  \* GlobalParam2.CandidateFeeSplitNum as stored (-1: no GlobalParam2 record)
+    pA, pB,    \* GlobalParam.A / GlobalParam.B (updateGlobalParam)
+    candNum,   \* GlobalParam.CandidateNum (updateGlobalParam)
     hasDapp,   \* the gas address (setGasAddress) is a non-empty address (the account "dapp")
     nops, act  \* bound and history variable (not part of the VIEW)
 
-vars == <<pool, prev, au, stake, pen, ont, ong, fee, splitFee, attr, promise, black, dappFee, hasDapp, nops, act>>
-view == <<pool, prev, au, stake, pen, ont, ong, fee, splitFee, attr, promise, black, dappFee, hasDapp>>
+vars == <<pool, prev, au, stake, pen, ont, ong, fee, splitFee, attr, promise, black, dappFee, hasDapp, splitNum, pA, pB, candNum, nops, act>>
+view == <<pool, prev, au, stake, pen, ont, ong, fee, splitFee, attr, promise, black, dappFee, hasDapp, splitNum, pA, pB, candNum>>
 State == [pool |-> pool, prev |-> prev, au |-> au, stake |-> stake, pen |-> pen, ont |-> ont, ong |-> ong, fee |-> fee,
-          splitFee |-> splitFee, attr |-> attr, promise |-> promise, black |-> black, dappFee |-> dappFee, hasDapp |-> hasDapp]
+          splitFee |-> splitFee, attr |-> attr, promise |-> promise, black |-> black, dappFee |-> dappFee, hasDapp |-> hasDapp,
+          splitNum |-> splitNum, pA |-> pA, pB |-> pB, candNum |-> candNum]
 
 \* status values of governance.go
 RegSt == 0  CandSt == 1  ConsSt == 2  QuitConsSt == 3  QuitingSt == 4  BlackSt == 5  NoneSt == -1
@@ -126,10 +142,14 @@ Init ==
     /\ promise = [p \in Peers |-> -1]
     /\ black = {}
     /\ dappFee = DappFee /\ hasDapp = HasDapp
+    /\ splitNum = (IF P2Stored THEN SplitNum ELSE -1)
+    /\ pA = A /\ pB = B /\ candNum = CandNum
     /\ nops = 0
     /\ act = [name |-> "Init"]
 
 Active(pl) == {p \in Peers : pl[p].st \in {CandSt, ConsSt}}
+\* getGlobalParam2: the stored CandidateFeeSplitNum, or the current CandidateNum when no record is stored
+EffSplitNum == IF splitNum < 0 THEN candNum ELSE splitNum
 
 ----------------------------------------------------------------------------
 (* executeSplit2 + splitNodeFee + executeAddressSplit, evaluated on (prev = pool of view-1, cur = current pool) *)
@@ -150,12 +170,16 @@ Split(cur, pv, auth, at, balance, sfee) ==
         SF == [p \in Top |-> Curve(Stk(p), avg)]             \* functions: evaluated once per commit
         S(p) == SF[p]
         sumS == SumSet(Top, S)
-        len == Min(SplitNum, Cardinality(Cands))
+        \* "fee split of candidate peer": only the peers ranked K .. min(CandidateFeeSplitNum, pool size) - 1 share B percent,
+        \* in proportion to their stake among exactly these peers
+        len == Min(EffSplitNum, Cardinality(Cands))
         Mid == {p \in Cands : Idx(pv, Cands, p) >= K /\ Idx(pv, Cands, p) < len}
         sum2 == SumSet(Mid, Stk)
-        Paid == IF sumTop < K THEN {} ELSE Top \cup (IF sum2 > 0 THEN Mid ELSE {})
-        NodeAmtF == [p \in Paid |-> IF p \in Top THEN MulDiv((nodeIncome * A) \div 100, S(p), sumS)
-                                    ELSE MulDiv((nodeIncome * B) \div 100, Stk(p), sum2)]
+        \* deviation (sensitivity run): the denominator is bounded by CandidateFeeSplitNum, the paying loop is not
+        MidPaid == IF "PayBeyondSplitNum" \in Dev THEN {p \in Cands : Idx(pv, Cands, p) >= K} ELSE Mid
+        Paid == IF sumTop < K THEN {} ELSE Top \cup (IF sum2 > 0 THEN MidPaid ELSE {})
+        NodeAmtF == [p \in Paid |-> IF p \in Top THEN MulDiv((nodeIncome * pA) \div 100, S(p), sumS)
+                                    ELSE MulDiv((nodeIncome * pB) \div 100, Stk(p), sum2)]
         NodeAmt(p) == NodeAmtF[p]
         \* splitNodeFee
         PeerCost(p) == at[p].t
@@ -247,10 +271,11 @@ CommitCore(pl, pv, auth, stk, pn, ontB, ongB, fe, sfee, at) ==
 ----------------------------------------------------------------------------
 (* Actions.  XxxOK = the success guard as coded; XxxDo = the effect. *)
 StepAdm(a) == /\ nops' = nops + 1 /\ act' = a
-Step(a) == StepAdm(a) /\ UNCHANGED <<dappFee, hasDapp>>    \* only the two admin actions change these
+Step(a) == StepAdm(a) /\ UNCHANGED <<dappFee, hasDapp, splitNum, pA, pB, candNum>>    \* only the admin actions change these
 
 RegisterOK(p, a, x) ==
     /\ x >= 1 /\ a = OwnerOf[p] /\ p \notin black /\ pool[p].st = NoneSt
+    /\ Cardinality(Active(pool)) < candNum          \* "num of candidate node is full"
     /\ x >= MinInitStake /\ ont[a] >= x
 Register(p, a, x) ==
     /\ RegisterOK(p, a, x)
@@ -387,12 +412,18 @@ TransferPenalty(p, a) ==
     /\ UNCHANGED <<pool, prev, au, stake, ong, fee, splitFee, attr, promise, black>>
 
 \* setGasAddress (admin): x = 1 the account "dapp", x = 0 the empty address
-SetGas(x) == /\ hasDapp' = (x = 1) /\ UNCHANGED dappFee
+SetGas(x) == /\ hasDapp' = (x = 1) /\ UNCHANGED <<dappFee, splitNum, pA, pB, candNum>>
              /\ UNCHANGED <<pool, prev, au, stake, pen, ont, ong, fee, splitFee, attr, promise, black>>
-\* updateGlobalParam2 (admin) with the configuration's MinAuthorizePos / CandidateFeeSplitNum and DappFee = x (the code has no upper bound)
-SetDappFeeOK(x) == SplitNum >= K
-SetDappFee(x) == /\ SetDappFeeOK(x) /\ dappFee' = x /\ UNCHANGED hasDapp
-                 /\ UNCHANGED <<pool, prev, au, stake, pen, ont, ong, fee, splitFee, attr, promise, black>>
+\* updateGlobalParam2 (admin) with the configuration's MinAuthorizePos, DappFee = x (the code has no upper bound) and
+\* CandidateFeeSplitNum = n: the only check is n >= K -- n may be smaller than the current peer pool, and n = K is allowed
+SetParam2OK(x, n) == n >= K
+SetParam2(x, n) == /\ SetParam2OK(x, n) /\ dappFee' = x /\ splitNum' = n /\ UNCHANGED <<hasDapp, pA, pB, candNum>>
+                   /\ UNCHANGED <<pool, prev, au, stake, pen, ont, ong, fee, splitFee, attr, promise, black>>
+\* updateGlobalParam (admin) with the configuration's CandidateFee 0 / MinInitStake / PosLimit / Yita 5 / Penalty and
+\* A = a, B = b, CandidateNum = cn.  CandidateNum is not compared with the stored CandidateFeeSplitNum nor with the pool.
+SetParamOK(a, b, cn) == a + b = 100 /\ cn >= 4 * K /\ Penalty <= 100 /\ PosLimit >= 1 /\ MinInitStake >= 1
+SetParam(a, b, cn) == /\ SetParamOK(a, b, cn) /\ pA' = a /\ pB' = b /\ candNum' = cn /\ UNCHANGED <<hasDapp, dappFee, splitNum>>
+                      /\ UNCHANGED <<pool, prev, au, stake, pen, ont, ong, fee, splitFee, attr, promise, black>>
 
 \* a call whose guard is false: the transaction fails, nothing changes
 Failing(a) == /\ (WithInvalid \/ nops < Len(Script)) /\ Step([a EXCEPT !.ok = FALSE])
@@ -442,7 +473,12 @@ Next ==
             LET a == [name |-> "WithdrawFee", a |-> ad, ok |-> TRUE]
             IN IF WithdrawFeeOK(ad) THEN WithdrawFee(ad) /\ Step(a) ELSE Failing(a)
        \/ \E x \in GasVals : On("SetGas") /\ SetGas(x) /\ StepAdm([name |-> "SetGas", x |-> x, ok |-> TRUE])
-       \/ \E x \in DappVals : On("SetDappFee") /\ SetDappFee(x) /\ StepAdm([name |-> "SetDappFee", x |-> x, ok |-> TRUE])
+       \/ \E v \in Param2Vals : On("SetParam2") /\
+            LET a == [name |-> "SetParam2", x |-> v[1], y |-> v[2], ok |-> TRUE]
+            IN IF SetParam2OK(v[1], v[2]) THEN SetParam2(v[1], v[2]) /\ StepAdm(a) ELSE Failing(a)
+       \/ \E v \in ParamVals : On("SetParam") /\
+            LET a == [name |-> "SetParam", x |-> v[1], y |-> v[2], z |-> v[3], ok |-> TRUE]
+            IN IF SetParamOK(v[1], v[2], v[3]) THEN SetParam(v[1], v[2], v[3]) /\ StepAdm(a) ELSE Failing(a)
        \/ \E p \in Peers, ad \in Authorizers : On("TransferPenalty") /\ pen[p] > 0 /\
             LET a == [name |-> "TransferPenalty", p |-> p, a |-> ad, ok |-> TRUE]
             IN IF TransferPenaltyOK(p, ad) THEN TransferPenalty(p, ad) /\ Step(a) ELSE Failing(a)
@@ -464,7 +500,8 @@ Do(a) ==
       [] a.name = "Fee" -> Fee(a.x) /\ Step(a)
       [] a.name = "WithdrawFee" -> IF WithdrawFeeOK(a.a) THEN WithdrawFee(a.a) /\ Step(a) ELSE Failing(a)
       [] a.name = "SetGas" -> SetGas(a.x) /\ StepAdm(a)
-      [] a.name = "SetDappFee" -> IF SetDappFeeOK(a.x) THEN SetDappFee(a.x) /\ StepAdm(a) ELSE Failing(a)
+      [] a.name = "SetParam2" -> IF SetParam2OK(a.x, a.y) THEN SetParam2(a.x, a.y) /\ StepAdm(a) ELSE Failing(a)
+      [] a.name = "SetParam" -> IF SetParamOK(a.x, a.y, a.z) THEN SetParam(a.x, a.y, a.z) /\ StepAdm(a) ELSE Failing(a)
       [] a.name = "TransferPenalty" -> IF TransferPenaltyOK(a.p, a.a) THEN TransferPenalty(a.p, a.a) /\ Step(a) ELSE Failing(a)
 
 \* a scripted prefix (the same calls the harness makes first), then free exploration
@@ -496,9 +533,12 @@ Withdrawable == /\ splitFee = SumSet(Addrs, LAMBDA a : fee[a])
                 /\ splitFee <= ong["gov"]
 \* a commit can never be in the situation where the real code panics (division by zero, balance < splitFee)
 \* or wraps (remainAmount := nodeAmount - sumAmount below zero), nor where the holders' shares exceed the whole
-NoWrap == \A r \in {CommitRes} : ~r.anomaly /\ ~r.over
+\* -- and, whatever the global parameters and the size of the peer pool are (pool below / equal to / above
+\* CandidateFeeSplitNum, CandidateFeeSplitNum = K, any A / B / DappFee), what the settlement would hand out now
+\* (node amounts + dapp share) is at most the income it splits
+NoWrap == \A r \in {CommitRes} : ~r.anomaly /\ ~r.over /\ r.splitSum + r.dapp <= r.income
 \* the same for the settlement that blackNode triggers on a consensus peer (checked in the thorough configuration)
-NoWrapBlack == \A p \in Peers : pool[p].st = ConsSt => \A r \in {BlackRes(p)} : ~r.anomaly /\ ~r.over
+NoWrapBlack == \A p \in Peers : pool[p].st = ConsSt => \A r \in {BlackRes(p)} : ~r.anomaly /\ ~r.over /\ r.splitSum + r.dapp <= r.income
 \* an epoch settlement credits (nodes + holders + dapp) no more than the income it splits
 SplitBounded == [][ (act'.name \in {"Commit", "Black"} /\ act'.ok) =>
                       /\ splitFee' - splitFee + (ong'["dapp"] - ong["dapp"]) <= ong["gov"] - splitFee
